@@ -61,10 +61,11 @@ const (
 	kString
 	kCap
 	kReWrite
+	kNil
 )
 
 var kindNames = []string{"Write", "WriteString", "WriteByte", "WriteRune", "Read", "ReadByte", "ReadRune", "UnreadByte", "UnreadRune",
-	"Next", "Truncate", "Reset", "Grow", "ReadFrom", "WriteTo", "Len", "Bytes", "String", "Cap", "ReWrite"}
+	"Next", "Truncate", "Reset", "Grow", "ReadFrom", "WriteTo", "Len", "Bytes", "String", "Cap", "ReWrite", "NilReceiver"}
 
 func (k kind) String() string { return kindNames[k] }
 
@@ -130,6 +131,8 @@ func (o *gop) coq() string {
 		return "OCap"
 	case kReWrite:
 		return "ReWrite " + vh.CoqZ(int64(o.pos)) + " " + vh.CoqBytes(o.p)
+	case kNil:
+		return "ONil " + vh.CoqZ(int64(o.n))
 	}
 	panic("kind")
 }
@@ -156,6 +159,11 @@ func (o *gop) String() string {
 		return fmt.Sprintf("WriteTo(writer answering (%d,%s))", o.m, errName(o.e))
 	case kReWrite:
 		return fmt.Sprintf("ReWrite(%d,%v)", o.pos, o.p)
+	case kNil:
+		if o.n == 0 {
+			return "(*Buffer)(nil).String()"
+		}
+		return "(*Buffer)(nil).Len()"
 	}
 	return o.k.String() + "()"
 }
@@ -403,6 +411,18 @@ func apply(b bufAPI, o *gop) (st int64, data []int64) {
 	case kReWrite:
 		b.(rewriter).ReWrite(o.pos, append([]byte{}, o.p...))
 		return 0, data
+	case kNil: // the same method on a nil pointer of the same type; the buffer under test is not touched
+		var nb bufAPI
+		switch b.(type) {
+		case *tex.Buffer:
+			nb = (*tex.Buffer)(nil)
+		default:
+			nb = (*bytes.Buffer)(nil)
+		}
+		if o.n == 0 {
+			return 0, i64s([]byte(nb.String()))
+		}
+		return 0, []int64{int64(nb.Len())}
 	}
 	panic("kind")
 }
@@ -454,6 +474,10 @@ type initSpec struct {
 	nilSeen  bool // Bytes() == nil right after construction
 	panicked bool
 	done     bool
+	// constructor arguments shared with another buffer (class alias-*)
+	shareStr      *string // NewBufferString(*shareStr) on both sides
+	shareSlice    []byte  // tex.NewBuffer(shareSlice)
+	shareSliceRef []byte  // bytes.NewBuffer(shareSliceRef)
 }
 
 func (i *initSpec) build(twoSided bool) (tb *tex.Buffer, rb *bytes.Buffer, ok bool) {
@@ -477,11 +501,25 @@ func (i *initSpec) build(twoSided bool) (tb *tex.Buffer, rb *bytes.Buffer, ok bo
 			rb = new(bytes.Buffer)
 		}
 	case iNew:
+		if i.shareSlice != nil {
+			tb = tex.NewBuffer(i.shareSlice)
+			if twoSided {
+				rb = bytes.NewBuffer(i.shareSliceRef)
+			}
+			break
+		}
 		tb = tex.NewBuffer(mk())
 		if twoSided {
 			rb = bytes.NewBuffer(mk())
 		}
 	case iNewString:
+		if i.shareStr != nil {
+			tb = tex.NewBufferString(*i.shareStr)
+			if twoSided {
+				rb = bytes.NewBufferString(*i.shareStr)
+			}
+			break
+		}
 		tb = tex.NewBufferString(string(i.data))
 		if twoSided {
 			rb = bytes.NewBufferString(string(i.data))
